@@ -45,6 +45,7 @@ class SubProcess(zope.testrunner.feature.Feature):
         print(file=self.original_stderr)
         print(self.runner.ran,
               len(self.runner.failures), len(self.runner.errors),
+              len(self.runner.skipped),
               file=self.original_stderr)
         for test, exc_info in self.runner.failures:
             print(' '.join(str(test).strip().split('\n')),
